@@ -505,7 +505,7 @@ func c05Case(r *obs.Run, i int) {
 		}
 	}
 	nops := 1 + rng.Intn(6)
-	for k := 0; k < nops && !h.failed; k++ {
+	for k := 0; k < nops && !h.failed && !h.ended; k++ {
 		before := len(h.Ops)
 		switch rng.Intn(15) {
 		case 14:
@@ -534,7 +534,7 @@ func c05Case(r *obs.Run, i int) {
 		default:
 			h.opRowSetOffset()
 		}
-		if len(h.Ops) == before || h.failed {
+		if len(h.Ops) == before || h.failed || h.ended {
 			continue
 		}
 		if !h.check("state-differs") {
